@@ -293,6 +293,9 @@ func TestMatrix(t *testing.T) {
 		t.Fatalf("universe: %v", err)
 	}
 	sp := specs()
+	if drop := os.Getenv("C18_DROP_SPEC"); drop != "" {
+		delete(sp, drop) // development aid: shows what happens when an RPC has no entry in the table
+	}
 	// the oracle table must cover the universe exactly
 	var unclassified, stale []string
 	seen := map[string]bool{}
